@@ -6,6 +6,7 @@ Driver for C19.
   case := `<enabled:0|1> <max_threads> <min_rules_per_thread> <reps> <pseed> <facts> <rules> [d<k> (<facts> <rules>)*]`
      facts := `-` | `name=V,…`     rules := rule;rule;…   rule := `name/salience/enabled/cond/acts`
      V     := `<int>` Integer | `f<int>` Number (integral float) | `b0`/`b1` Boolean | `s<text>` String
+     name  := plain | `U.x` (field x of object U) | `~U.x` (the flat top-level key spelled `U.x`; Model.lookup: nested first)
      cond  := RPN joined by `_` : `L:<field>:<op>:<int|f<int>|b0|b1>` | `R:<field>:<op>:<text>` (string literal / field
               reference) | `A` | `O` | `N` | `X`      acts := `-` | `field=int,…`
      d<k>  := debug_mode of the calls (bit 0: the configured engine's calls, bit 1: the sequential engine's call) — the
@@ -290,8 +291,17 @@ def checkStage (cfg : Config) (st : Stage) (runs : List String) : Except String 
           let firedWithActs := rules.any fun r => r.enabled && r.cond.eval facts && !r.actions.isEmpty
           let typed := rules.any (fun r => condTyped r.cond) ||
             facts.any (fun p => match p.2 with | .int _ => false | _ => true)
+          -- flat top-level keys spelled like a dotted path (`~U.x`): present at all / together with the object field of
+          -- the same spelling and another value / some enabled rule's verdict would differ if the flat key won
+          let flat := facts.filter fun p => p.1.startsWith "~"
+          let shadowed := flat.any fun p => facts.any fun q => flatKey q.1 == p.1 && q.2 != p.2
+          let flatFirst : Facts := flat.map (fun p => ((p.1.drop 1).toString, p.2)) ++ facts
+          let flatSensitive := rules.any fun r => r.enabled && r.cond.eval facts != r.cond.eval flatFirst
           .ok <|
             (if par then ["par"] else ["seq_only"])
+            ++ (if !flat.isEmpty then ["flat_dotted_key"] else [])
+            ++ (if shadowed then ["flat_key_shadowed_by_nested_field"] else [])
+            ++ (if flatSensitive then ["verdict_depends_on_nested_first"] else [])
             ++ (if multi then ["multi_chunk"] else [])
             ++ (if shortLast then ["short_last_chunk"] else [])
             ++ (if fewer then ["n_lt_threads"] else [])
